@@ -87,6 +87,19 @@ def run(ctx):
         ctx.ob('c20/build/' + feats.replace(' ', '+'), ok, 'build: configuration type-checks on stable', (err or {}).get('where', ''), 'cargo +stable check --no-default-features --features "%s" succeeds' % feats, (err or {}).get('msg'))
     if not os.environ.get('VV_SKIP_BUILD'): ctx.floor('feature configurations checked', len(res), 52 if ctx.tier == 'quick' else 212)
     ctx.counts['feature_configurations'] = len(res)
+    # ---- 1b. a feature only adds items: every body of the base configuration exists unchanged (normalised MIR) in the extended one
+    if not os.environ.get('VV_SKIP_BUILD') and not ctx.only:
+        fps = featmat.run_fingerprints(ctx.tier)
+        bodies = 0
+        for base, ext, missing, changed, nb, ne, err in fps:
+            tag = base + '+' + ('+'.join(ext) if len(ext) < 4 else 'all')
+            if err is not None:
+                ctx.ob('c20/adds-only/%s/analysable' % tag, False, 'local: fingerprint comparison needs both configurations to compile under the analysing toolchain', tag, 'compiles', err[-300:]); continue
+            bodies += nb
+            ctx.ob('c20/adds-only/%s/no-item-removed' % tag, not missing, 'local fingerprint: enabling a feature removes no function body of the base configuration', tag, 'every base item present (%d)' % nb, missing[:5])
+            ctx.ob('c20/adds-only/%s/no-body-changed' % tag, not changed, 'local fingerprint: enabling a feature leaves the MIR of every function body of the base configuration unchanged (so it cannot change their behaviour)', tag, 'all %d base bodies identical; %d bodies in the extended configuration' % (nb, ne), changed[:5])
+        ctx.floor('configuration pairs fingerprinted', len(fps), 14 if ctx.tier == 'quick' else 28)
+        ctx.floor('function bodies compared', bodies, 40000)
     # ---- 2. lifts
     feats = QUICK_FEATURES if ctx.tier == 'quick' else ALL_FEATURES
     kinds = vec_kinds(feats)
